@@ -47,6 +47,8 @@ def pool(cfg, A=10):
         H("h1", 1, N, N, h0 + pd + 30, pd + 30, fwd=True),   # plain forward
         H("h1", 0, N, N, h0 + pd + 30, pd + 30),       # no invoice
         H("h1", 5, N, N, h0 + pd + 30, pd + 30),       # self route hint (allowed by default)
+        H("h1", 1, N, N, h0 + pd + 30, pd + 30, decl=max(1, A // 2), decl_len=-2),   # fixed-amount invoice + lower amount field
+        H("h1", 1, N, N, h0 + pd + 30, pd + 30, decl=A + 1, decl_len=-2),            # ... + higher amount field
     ]
     h2 = [
         H("h2", 4, p1, N, h0 + pd + 12, pd + 12),
@@ -93,6 +95,21 @@ def rand_scenario(rng, family, policies=False):
         hs = [p["good"][2], p["good"][0], p["good"][1]]
         if rng.random() < 0.4:
             hs.append(p["good"][3])
+        if rng.random() < 0.7:
+            # ordered: the first set is decided before the second one arrives
+            first = rng.choice([[p["good"][2]], [p["good"][0], p["good"][1]]])
+            second = rng.choice([[p["good"][2]], [p["good"][0], p["good"][1]], [p["good"][3], p["good"][1]]])
+            N = need_of(cfg, A)
+            return {"cfg": cfg, "invs": invs_for(A), "htlcs": first + second, "late_from": len(first) + 1,
+                    "probe": [H("h1", 1, N, N, cfg["h0"] + cfg["pdelta"] + 50, cfg["pdelta"] + 50)]}
+    elif family == "overlap3":
+        # three successive fully funding single-HTLC sets, each delivered after the previous one was decided
+        g = p["good"][2]
+        hs = [g, dict(g, exp=g["exp"] + 1), dict(g, exp=g["exp"] + 2)]
+        N = need_of(cfg, A)
+        cfg["mpp"] = 6
+        return {"cfg": cfg, "invs": invs_for(A), "htlcs": hs, "stage": True,
+                "probe": [H("h1", 1, N, N, cfg["h0"] + cfg["pdelta"] + 50, cfg["pdelta"] + 50)]}
     elif family == "other":
         hs = rng.sample(p["other"], rng.randint(1, 3)) + rng.sample(p["good"], rng.randint(0, 2))
     rng.shuffle(hs)
@@ -100,7 +117,7 @@ def rand_scenario(rng, family, policies=False):
     return {"cfg": cfg, "invs": invs_for(A), "htlcs": hs,
             "probe": [H("h1", 1, N, N, cfg["h0"] + cfg["pdelta"] + 50, cfg["pdelta"] + 50)]}
 
-def rand_jobs(seed, n, families, crashes=(0, 1), wfaults=0, rfaults=0, probes=0, heights=False, freeze=False, start_run=1, steps=(25, 60), direct=0, policies=False):
+def rand_jobs(seed, n, families, crashes=(0, 1), wfaults=0, rfaults=0, probes=0, heights=False, freeze=False, start_run=1, steps=(25, 60), direct=0, policies=False, clockback=False):
     rng = random.Random(seed)
     jobs = []
     for k in range(n):
@@ -109,6 +126,17 @@ def rand_jobs(seed, n, families, crashes=(0, 1), wfaults=0, rfaults=0, probes=0,
         r = {"seed": rng.getrandbits(48), "steps": rng.randint(*steps),
              "crashes": rng.choice(crashes), "wfaults": rng.randint(0, wfaults), "rfaults": rng.randint(0, rfaults),
              "maxparts": rng.choice([1, 2, 2, 3]), "maxpays": 3, "maxclock": 8, "heights": heights}
+        if fam == "overlap" and rng.random() < 0.7:
+            r["slow_lc"] = rng.choice([1, 1, 2])
+            r["steps"] = rng.randint(50, 90)
+        if "late_from" in scen:
+            r["late_from"] = scen.pop("late_from")
+        if scen.pop("stage", False):
+            r["staged"] = True
+            r["steps"] = rng.randint(70, 120)
+            r["slow_lc"] = rng.choice([0, 1, 1, 2])
+        if clockback and r["crashes"] and rng.random() < 0.5:
+            r["clockback"] = True
         if freeze:
             r["freeze"] = "h1"
         if direct:
@@ -229,4 +257,45 @@ def garbage_jobs(seed, n, start_run=1):
         sc = {"cfg": cfg, "invs": CLASS_INVS, "htlcs": hs, "probe": []}
         jobs.append({"run": start_run + k, "scen": sc, "rand": {"seed": rng.getrandbits(40), "steps": rng.randint(5, 30), "maxclock": 6},
                      "drain": True, "tag": "garbage"})
+    return jobs
+
+
+# ---------------------------------------------------------------------------------------------
+# Directed schedules: C11's restart clause.  Stored attempt younger / older than the timeout / dated in the
+# future (wall clock stepped back while down), every down-time, one or both HTLCs replayed.
+def restart_wait_jobs(start_run=1):
+    jobs = []
+    run = start_run
+    ds = lambda key, mode: {"kind": "ds", "hash": "h1", "key": key}
+    for mpp in (1, 2, 3):
+        cfg = dict(CFG_A); cfg["mpp"] = mpp
+        p = pool(cfg, 10)
+        sc = {"cfg": cfg, "invs": invs_for(10), "htlcs": [p["good"][0], p["good"][1]], "probe": []}
+        for pre in (0, 2):                       # ticks before the attempt
+            for stage in ("w1", "w2", "pay"):    # how far add_payment_attempt / pay got before the crash
+                for back in (0, 1, 2, 3):        # wall clock stepped back at the crash
+                    for down in (0, 1, 2, 4):    # down-time in ticks
+                        for replay in ((1,), (2,), (1, 2)):
+                            if back and down > 1:
+                                continue
+                            s = [{"a": "tick"}] * pre + [{"a": "htlc", "i": 1}, {"a": "htlc", "i": 2},
+                                 {"a": "exec", "sel": {"kind": "listds", "hash": "h1"}, "fault": "none"},
+                                 {"a": "deliver", "sel": {"kind": "listds", "hash": "h1"}},
+                                 {"a": "exec", "sel": ds("state", "cor"), "fault": "none"}]
+                            if stage in ("w2", "pay"):
+                                s += [{"a": "deliver", "sel": ds("state", "cor")}, {"a": "exec", "sel": ds("att", "mc"), "fault": "none"}]
+                            if stage == "pay":
+                                s += [{"a": "deliver", "sel": ds("att", "mc")}, {"a": "exec", "sel": {"kind": "pay", "hash": "h1"}, "fault": "none"}]
+                            s += [{"a": "crash", "lose": False, "back": back}] + [{"a": "tick"}] * down
+                            s += [{"a": "htlc", "i": i} for i in replay]
+                            s += [{"a": "exec", "sel": {"kind": "listds", "hash": "h1"}, "fault": "none"}, {"a": "deliver", "sel": {"kind": "listds", "hash": "h1"}},
+                                  {"a": "exec", "sel": {"kind": "lists", "hash": "h1", "status": "pending"}, "fault": "none"},
+                                  {"a": "deliver", "sel": {"kind": "lists", "hash": "h1", "status": "pending"}},
+                                  {"a": "exec", "sel": {"kind": "lists", "hash": "h1", "status": "complete"}, "fault": "none"},
+                                  {"a": "deliver", "sel": {"kind": "lists", "hash": "h1", "status": "complete"}},
+                                  {"a": "exec", "sel": ds("att", "cor"), "fault": "none"}, {"a": "deliver", "sel": ds("att", "cor")},
+                                  {"a": "exec", "sel": ds("state", "mr"), "fault": "none"}, {"a": "deliver", "sel": ds("state", "mr")}]
+                            s += [{"a": "tick"}] * (mpp + 5)
+                            jobs.append({"run": run, "scen": sc, "sched": s, "drain": True, "tag": "directed:restart_wait"})
+                            run += 1
     return jobs
